@@ -3,7 +3,7 @@
     to instance (so at most one instance per type by construction); every operation takes effect
     in one step, at its return, which lies between its invocation and its response: that point is
     its linearization point. *)
-From Hannibal Require Import Model.Sys Inv.C08.
+From Hannibal Require Import Model.Sys Inv.C08 Inv.C08b.
 
 (** Every registry operation the model lets return refines the sequential specification
     [spec_ok]: lookups return the registered instance, which is alive (or was spawned by this very
@@ -41,3 +41,22 @@ Theorem C08_registry_changes_only_by_its_operations :
   forall s e s', step s e = Acc s' -> reg_event s e = false -> reg s' = reg s.
 Proof. exact step_reg. Qed.
 Print Assumptions C08_registry_changes_only_by_its_operations.
+
+(** Over whole executions: terminated is for ever (the notifier behind [Addr::stopped], once
+    resolved or dropped - on a graceful end or on any failure path - is never armed again), so
+    from any state in which an instance has terminated, on no continuation, however long, does
+    [try_from_registry] - or a [from_registry] that did not itself spawn - hand that instance out
+    again, whether or not anybody ever awaited or queried it. *)
+Theorem C08_terminated_instance_is_never_handed_out :
+  forall tr s1 s2 a x o p k ty s3,
+  actors s1 a = Some x -> a_notif x <> NArmed -> run s1 tr = Acc s2 ->
+  reg_ret s2 o p k ty (RInst (Some a)) = Acc s3 ->
+  k = RgTryFrom \/ (k = RgFrom /\ rlock s2 = false) -> False.
+Proof. exact terminated_never_returned. Qed.
+Print Assumptions C08_terminated_instance_is_never_handed_out.
+
+Theorem C08_terminated_is_for_ever :
+  forall tr s s' a x, run s tr = Acc s' -> actors s a = Some x -> a_notif x <> NArmed ->
+  exists x', actors s' a = Some x' /\ a_notif x' <> NArmed.
+Proof. exact stopped_stays_run. Qed.
+Print Assumptions C08_terminated_is_for_ever.
